@@ -12,7 +12,7 @@ THEOREMS = [
     "Helios.CodeTie.setupCircuitBreaker_refines", "Helios.CodeTie.cbEff_accepted", "Helios.CodeTie.translation_clean_wire",
     # notifications never block request processing: no observer runs under a lock, every lock has a
     # rank and locks are taken in rank order (lockorder_sound: no reachable state is stuck)
-    "Helios.Locks.lockorder_sound", "Helios.Facts.no_callback_under_lock", "Helios.Facts.lock_classes_ranked",
+    "Helios.Locks.lockorder_sound", "Helios.Facts.no_callback_under_lock", "Helios.Facts.no_wait_under_lock", "Helios.Facts.lock_classes_ranked",
     "Helios.Facts.lock_order_ranked", "Helios.Facts.lock_analysis_clean",
     "Helios.CodeTie.beforeRequest_refines", "Helios.CodeTie.afterRequest_refines", "Helios.CodeTie.translation_clean_cb",
 ]
